@@ -148,6 +148,11 @@ B("C11", "prefixed-string-arm-missing", F_IMPORT, "    elif ptype == \"string_va
 B("C12", "unsorted-bundle-loop", F_FLATB, "        for portref in sorted_portrefs(bundle_inst._connected_ports):", "        for portref in list(bundle_inst._connected_ports):", "C12.1")
 B("C12", "sort-by-id", F_FLATB, "return sorted(portrefs, key=lambda p: (p.inst.name or \"\", p.portname))", "return sorted(portrefs, key=lambda p: id(p))", "C12.2")
 B("C12", "name-from-id", F_PORTREFS, "            segments=[f\"{portref.inst.name}_{portref.portname}\"],\n            avoid=module.namespace,\n        )\n        sig.name = signame", "            segments=[f\"{portref.inst.name}_{portref.portname}\", str(id(portref))],\n            avoid=module.namespace,\n        )\n        sig.name = signame", "C12.3")
+B("C12", "sort-key-not-total", F_FLATB, "return sorted(portrefs, key=lambda p: (p.inst.name or \"\", p.portname))", "return sorted(portrefs, key=lambda p: p.inst.name or \"\")", "C12.2")
+T("C12", "sort-key-port-first", F_FLATB, "return sorted(portrefs, key=lambda p: (p.inst.name or \"\", p.portname))", "return sorted(portrefs, key=lambda ref: (ref.portname, ref.inst.name or \"\"))")
+B("C12", "parallel-ports-from-set", F_GENERATORS, "    par_ports = [port for port in m.ports.values() if port not in series_conns]", "    par_ports = set(m.ports.values()) - set(series_conns)", "C12.4")
+T("C12", "parallel-ports-sorted-set", F_GENERATORS, "    par_ports = [port for port in m.ports.values() if port not in series_conns]", "    par_ports = sorted(set(m.ports.values()) - set(series_conns), key=lambda q: q.name)")
+B("C08", "circular-check-on-stack", F_GENERATOR, "        if call in the_cache.pending:\n", "        if call in the_cache.stack[:-1]:\n", "C08.1", accept_error=True)
 T("C12", "sorted-inline", F_FLATB, "            for connected_port in sorted_portrefs(bref._connected_ports):", "            for connected_port in sorted(bref._connected_ports, key=lambda p: (p.inst.name or \"\", p.portname)):")
 
 # ------------------------------------------------------------------ C13
